@@ -200,10 +200,19 @@ impl<'a, 'c, 'd> Ev<'a, 'c, 'd> {
     }
 
     fn walk(&mut self, n: &SNode, in_union: bool) -> SNode {
+        self.walk_f(n, in_union, false)
+    }
+
+    /// `defaulted`: the node is the type of a field that has a default (whose JSON must keep
+    /// matching the union's first branch / the type)
+    fn walk_f(&mut self, n: &SNode, in_union: bool, defaulted: bool) -> SNode {
         if self.applied.is_some() {
             return n.clone();
         }
         let mut cands = self.candidates(n);
+        if defaulted {
+            cands.clear();
+        }
         if in_union {
             // a union may not directly contain a union, nor two branches of one kind
             cands.retain(|(name, _)| !matches!(*name, "wrap-in-union" | "unwrap-union") && !name.starts_with("promote") && !name.starts_with("narrow") && !name.starts_with("incompatible"));
@@ -227,7 +236,8 @@ impl<'a, 'c, 'd> Ev<'a, 'c, 'd> {
             }
             SType::Record(_, fields) => {
                 for f in fields.iter_mut() {
-                    f.node = self.walk(&f.node, false);
+                    let d = f.default.is_some();
+                    f.node = self.walk_f(&f.node, false, d);
                 }
             }
             _ => {}
